@@ -41,7 +41,7 @@ def run(tier, seed, flavour="native"):
     for i in range(n_valid):
         k = i % 12
         if k < 7:
-            valid.append(gen_core.generate(seed, i, avoid=set(), features={"eval": 3, "with": 2}, label="c02")[0])
+            valid.append(gen_core.generate_form(seed, i, avoid=set(), features={"eval": 3, "with": 2}, label="c02")[0])
         elif k < 9:
             valid.append(gen_opt.generate(seed, i))
         elif k < 11:
